@@ -77,6 +77,8 @@ type Term struct {
 }
 
 type TF struct {
+	Distinct func(a, b *Term) bool // optional: semantic disequality known to the client (region ages)
+	Frame    func(arr, idx *Term) *Term // optional: select(arr, idx) is known to equal select(result, idx)
 	tab   map[string]*Term
 	n     int
 	nvar  int
@@ -342,10 +344,13 @@ func splitAdd(t *Term) (*Term, *big.Int) {
 	return t, big.NewInt(0)
 }
 
-// provablyDistinct: syntactic disequality check.
-func provablyDistinct(a, b *Term) bool {
+// provablyDistinct: syntactic disequality check (plus the client's hint).
+func (f *TF) provablyDistinct(a, b *Term) bool {
 	if a == b {
 		return false
+	}
+	if f.Distinct != nil && a.S.K == KBV && f.Distinct(a, b) {
+		return true
 	}
 	if a.S.K == KBV {
 		ba, ca := splitAdd(a)
@@ -382,7 +387,7 @@ func (f *TF) Eq(a, b *Term) *Term {
 		}
 		return f.Bool(a.Val.Cmp(b.Val) == 0)
 	}
-	if provablyDistinct(a, b) {
+	if f.provablyDistinct(a, b) {
 		return f.False()
 	}
 	if a.S == SBool {
@@ -767,7 +772,7 @@ func (f *TF) Select(a, i *Term) *Term {
 		if a.Args[1] == i {
 			return a.Args[2]
 		}
-		if provablyDistinct(a.Args[1], i) {
+		if f.provablyDistinct(a.Args[1], i) {
 			a = a.Args[0]
 			continue
 		}
@@ -775,6 +780,11 @@ func (f *TF) Select(a, i *Term) *Term {
 	}
 	if a.Op == "constarr" {
 		return a.Args[0]
+	}
+	if a.Op == "var" && f.Frame != nil {
+		if o := f.Frame(a, i); o != nil {
+			return f.Select(o, i)
+		}
 	}
 	if a.Op == "ite" {
 		// push select into ite only when both branches resolve cheaply
